@@ -389,3 +389,16 @@ func SplitRequestID(requestID tmbytes.HexBytes) (tmbytes.HexBytes, uint64, int64
 
 	return contextID, batchCounter, requestHeight, batchRequestIndex, nil
 }
+
+func init() {
+	// the proto JSON codec writes an enum field with its String() and reads it back through the value map
+	// registered for the enum, which only knows the names of the proto definition: teach it the names
+	// String() writes, so that an exported genesis holding request contexts can be read back
+	for state, name := range RequestContextStateToStringMap {
+		RequestContextState_value[name] = int32(state)
+	}
+
+	for state, name := range RequestContextBatchStateToStringMap {
+		RequestContextBatchState_value[name] = int32(state)
+	}
+}
